@@ -326,6 +326,10 @@ type c17Spec struct {
 	pred      *c17Pred
 	sql       string
 	rows      []c17Row
+	// WITH(STATETTL): ttl in ms (0 = no option); before row i, age[i] ms pass and, if reap[i], the reaper ticks
+	ttl  int
+	age  []int
+	reap []bool
 }
 
 func c17Gen(rng *RNG, maxRows int) c17Spec {
@@ -408,6 +412,40 @@ func c17Gen(rng *RNG, maxRows int) c17Spec {
 	return s
 }
 
+// c17GenTTL: a generated case run WITH(STATETTL='10500ms'). The TTL is not a multiple of any age step, so the
+// real clock's microseconds between the hook calls never decide a comparison.
+func c17GenTTL(rng *RNG, maxRows int) c17Spec {
+	s := c17Gen(rng, maxRows)
+	s.ttl = 10500
+	s.sql += " WITH(STATETTL='10500ms')"
+	style := rng.Intn(4)
+	if style == 0 && rng.Intn(3) > 0 {
+		// one group only: every row of the history keeps it active
+		for i := range s.rows {
+			s.rows[i].key = s.rows[0].key
+			for c := 0; c < s.ncols; c++ {
+				s.rows[i].data[c17Cols[c]] = s.rows[0].data[c17Cols[c]]
+			}
+		}
+	}
+	for range s.rows {
+		var a int
+		switch style {
+		case 0: // every gap below the TTL: with one group the reaper must stay invisible however long a cycle lasts
+			a = []int{1000, 3000, 6000, 9000}[rng.Intn(4)]
+		case 1: // mostly short gaps, now and then one beyond the TTL
+			a = []int{0, 1000, 3000, 6000, 12000}[rng.Intn(5)]
+		case 2:
+			a = []int{0, 6000, 6000, 11000}[rng.Intn(4)]
+		default:
+			a = rng.Intn(5) * 4000
+		}
+		s.age = append(s.age, a)
+		s.reap = append(s.reap, rng.Intn(100) < 55)
+	}
+	return s
+}
+
 func c17CopyRow(m map[string]any) map[string]any {
 	c := make(map[string]any, len(m))
 	for k, v := range m {
@@ -461,6 +499,12 @@ func c17Stepped(s c17Spec) (bind string, obs string, nres int, err error) {
 	}
 	var ob []string
 	for i, r := range s.rows {
+		if s.ttl > 0 {
+			gw.VerifAge(time.Duration(s.age[i]) * time.Millisecond)
+			if s.reap[i] {
+				gw.VerifReapTick()
+			}
+		}
 		gw.VerifProcessRow(c17CopyRow(r.data))
 		for _, batch := range gw.VerifDrain() {
 			for _, x := range batch {
@@ -534,6 +578,16 @@ func c17Line(s c17Spec, mode, bind, obs, e2e string) string {
 	if mode == "E" {
 		l += " # " + e2e
 	}
+	if mode == "T" {
+		l += " # " + strconv.Itoa(s.ttl)
+		for i := range s.rows {
+			b := "0"
+			if s.reap[i] {
+				b = "1"
+			}
+			l += " " + strconv.Itoa(s.age[i]) + " " + b
+		}
+	}
 	return l
 }
 
@@ -605,6 +659,31 @@ func c17Corpus() []c17Spec {
 	}
 }
 
+// WITH(STATETTL) boundary cases: the documented pattern under a reaper
+func c17TTLCorpus() []c17Spec {
+	base := c17Corpus()[0] // COUNT(*) >= 3 per ga
+	mk := func(rows [][2]int, age []int, reap []bool) c17Spec {
+		s := base
+		s.sql += " WITH(STATETTL='10500ms')"
+		s.ttl = 10500
+		s.rows = nil
+		for _, r := range rows {
+			s.rows = append(s.rows, c17Row{key: []int{r[0]}, vals: []string{c17Q(4 * r[1]).tok()}, data: map[string]any{"ga": "k" + strconv.Itoa(r[0]), "v": r[1]}})
+		}
+		s.age, s.reap = age, reap
+		return s
+	}
+	T, F := true, false
+	return []c17Spec{
+		// one group, a row every 6 s, a tick before every row: the cycle is older than the TTL, the group never idle
+		mk([][2]int{{0, 1}, {0, 2}, {0, 3}, {0, 4}, {0, 5}, {0, 6}}, []int{0, 6000, 6000, 6000, 6000, 6000}, []bool{F, T, T, T, T, T}),
+		// an active group next to an idle one (the idle one loses its two rows, the active one fires with three)
+		mk([][2]int{{0, 1}, {1, 1}, {1, 2}, {0, 2}, {0, 3}, {1, 3}}, []int{0, 0, 1000, 9000, 6000, 1000}, []bool{F, F, F, F, T, T}),
+		// a gap exactly one step above the TTL and one below
+		mk([][2]int{{0, 1}, {0, 2}, {0, 3}, {0, 4}, {0, 5}}, []int{0, 10000, 11000, 10000, 10000}, []bool{F, T, T, T, T}),
+	}
+}
+
 func runC17(tier string, seed uint64, o *Out) error {
 	// NewRNG(k+1) is the stream of NewRNG(k) advanced by one draw: spread the seeds far apart so that
 	// different seeds give different case sets
@@ -618,6 +697,15 @@ func runC17(tier string, seed uint64, o *Out) error {
 	ncorpus := len(specs)
 	for i := 0; i < nStep; i++ {
 		specs = append(specs, c17Gen(rng, maxRows))
+	}
+	// WITH(STATETTL): an own random stream, so that the cases above are what they were before this family existed
+	trng := NewRNG(seed*0x100000001B3 + 0x5151)
+	nTTL := nStep / 5
+	for _, t := range c17TTLCorpus() {
+		specs = append(specs, t)
+	}
+	for i := 0; i < nTTL; i++ {
+		specs = append(specs, c17GenTTL(trng, maxRows))
 	}
 	type res struct {
 		line string
@@ -639,6 +727,10 @@ func runC17(tier string, seed uint64, o *Out) error {
 			bind, obs, nres, err := c17Stepped(s)
 			if err != nil {
 				out[i] = res{err: err}
+				return
+			}
+			if s.ttl > 0 {
+				out[i] = res{line: c17Line(s, "T", bind, obs, ""), bind: bind}
 				return
 			}
 			if !e2e {
@@ -675,7 +767,29 @@ func runC17(tier string, seed uint64, o *Out) error {
 				}
 			}
 		}
-		if strings.HasPrefix(r.line, "C17 E") {
+		if strings.HasPrefix(r.line, "C17 T") {
+			o.Count("statettl_stepped")
+			idle := false
+			acc := map[string]int{}
+			for j, row := range s.rows {
+				for k := range acc {
+					acc[k] += s.age[j]
+				}
+				if s.reap[j] {
+					for _, v := range acc {
+						if v > s.ttl {
+							idle = true
+						}
+					}
+				}
+				acc[c17KeyTok(row.key)] = 0
+			}
+			if idle {
+				o.Count("statettl_history_with_idle_group_at_tick")
+			} else {
+				o.Count("statettl_history_all_groups_active")
+			}
+		} else if strings.HasPrefix(r.line, "C17 E") {
 			o.Count("e2e_public_api")
 		} else {
 			o.Count("stepped_only")
